@@ -80,8 +80,10 @@ pub fn migrate(from: &Path, mut to: Options, overwrite: bool, force_migrate: &[u
 			c,
 			|IterState { item_index: index, key, rc, mut value, .. }| {
 				//TODO: more efficient ref migration
-				for _ in 0..rc {
-					let value = std::mem::take(&mut value);
+				for i in 0..rc {
+					// Every repetition must carry the value: a destination without reference
+					// counting replaces the value on each set.
+					let value = if i + 1 == rc { std::mem::take(&mut value) } else { value.clone() };
 					commit
 						.indexed
 						.entry(c)
